@@ -149,6 +149,12 @@ func TestVerif_C09(t *testing.T) {
 				}
 				c.chainId, round = pl.Id, 0
 				r.Count("pledging_chain_round_zero_cases", 1)
+				if rng.Intn(3) == 0 {
+					// a later round presented for a chain that is still pledging (arrives through the network path that
+					// verifies before queueing): the pledging node is not a member of that key set
+					round = uint64(1 + rng.Intn(5))
+					r.Count("pledging_chain_later_round_cases", 1)
+				}
 			} else {
 				c.chainId = list[rng.Intn(len(list))].Id
 			}
@@ -269,10 +275,6 @@ func TestVerif_C09(t *testing.T) {
 					}
 					cm := *c
 					cm.snap = &m
-					if mut == "round-zero" && c.pledging != nil && m.RoundNumber != 0 {
-						// round >0 of a pledging chain is not a certificate context the node can be in
-						continue
-					}
 					vC09Judge(r, &cm, node, fresh(), "mut-"+mut, &accepted, &rejected)
 				}
 			}
